@@ -4,6 +4,7 @@ Oracles: R2 query model on harness tables; fold of raw rows fetched with a plain
 SELECT on ledger tables; partition additivity; M3 aggregator protocol monitor; M2.
 """
 from decimal import InvalidOperation
+import re as _re
 
 from .. import engine, gen, ir, model, monitors, ledgers
 from ..ir import T_INT, T_DEC, T_STR, T_DATE, T_BOOL
@@ -22,7 +23,7 @@ ASSUMPTIONS = [
     'reference model R2 written from the property statement',
     'equal values (Python equality, e.g. 1.0 and 1.00) form one group shown by its first representative',
 ]
-EXCLUDED_BOTH = (InvalidOperation, OverflowError)
+EXCLUDED_BOTH = (InvalidOperation, OverflowError, _re.error)      # (an invalid regular expression built from data: undefined)
 _LIT = ir.Style()
 _LIT.param_style = 'literal'
 
@@ -76,8 +77,9 @@ def run_case(ctx, q, tables, route, label, mon):
         if eng_exc is not None and mod_exc is not None and type(eng_exc) is type(mod_exc):
             ctx.count('excluded.definition_raises')
             return
-        if isinstance(eng_exc, EXCLUDED_BOTH):
-            # arithmetic domain error on a row / key the (lazier) model never evaluated: outside the property, counted
+        if isinstance(eng_exc, EXCLUDED_BOTH) and model.domain_error_possible(q, tables, EXCLUDED_BOTH):
+            # arithmetic domain error on a row / key / sub-expression the (lazier) model never evaluated (such an evaluation
+            # exists): outside the property, counted
             ctx.count('excluded.engine_arithmetic_domain_error')
             return
         if eng_exc is not None and is_equal_constant_merge(eng_exc, q, tables):
